@@ -104,7 +104,7 @@ package mem
 //@ ensures [C02] forall k string :: k != clientID ==> has(index, k) == old(has(index, k)) && index[k] == old(index[k])
 //@ ensures [C02] forall n *topicNode, c string :: live(n) && c != clientID ==> has(n.clients, c) == old(has(n.clients, c)) && n.clients[c] == old(n.clients[c])
 //@ ensures [C11] forall n *topicNode, g string, c string :: live(n) && c != clientID ==> member(n, g, c) == old(member(n, g, c))
-//@ ensures [C02 C11 C05] forall t string :: old(has(ix, t)) ==> !has(old(ix[t]).clients, clientID) && (forall g string :: !member(old(ix[t]), g, clientID))
+//@ ensures [C02 C11 C05] forall t string :: old(has(ix, t)) ==> gone(old(ix[t]), clientID)
 //@ ensures [C02] forall n *topicNode, k string :: live(n) && has(n.children, k) ==> old(has(n.children, k)) && n.children[k] == old(n.children[k])
 // a node is unlinked from its parent only when it is bare (stated per iteration: the link that an iteration removes
 // is the link of that iteration's node, and the node holds nothing at that moment)
